@@ -2,6 +2,7 @@ import LdarModel.Lemmas.Gen
 import LdarModel.Lemmas.Units
 import LdarModel.Generated.Units
 import LdarModel.Generated.EmisSeed
+import LdarModel.Generated.GenState
 import Mathlib.Data.List.Perm.Subperm
 import Mathlib.Data.List.Range
 import Mathlib.Data.List.Nodup
@@ -602,6 +603,24 @@ example :
     F.nSaved = 5 ∧ F.files 3 = some 37 ∧ F.files 4 = some 47 ∧ F.files 5 = none
     ∧ seedTrace Generated.EmisSeed.seedIdx (fun i => 10 * i + 7) false 2 4 = [(2, 27), (3, 37)] := by
   decide +kernel
+
+/-! ### no state survives between cases in one process (table obligation)
+
+The models are pure functions of their arguments: a generated scenario, a converted rate or a seed
+list cannot depend on what was generated, converted or loaded before.  For the code that is the
+content of this obligation on the table extracted from the five modelled modules: no class-level
+mutable container, no cached function, the only module-level containers are the conversion
+dictionaries and no function mutates them, the only copy/pickle hook is `Source.__reduce__`, and
+its argument tuple lists the attributes in exactly the order `Source._reconstruct` stores them
+(pickling round trip).  The same-process history runs of the check are the dynamic counterpart. -/
+theorem GenState.no_cross_case_state :
+    Generated.GenState.classLevelContainers = []
+    ∧ Generated.GenState.cachedFunctions = []
+    ∧ Generated.GenState.moduleContainerMutations = []
+    ∧ Generated.GenState.moduleLevelContainers.all (fun p => p.1 == "unit_converter") = true
+    ∧ Generated.GenState.copyHooks = [("sources", "Source", "__reduce__")]
+    ∧ Generated.GenState.sourceReduceAttrs = Generated.GenState.sourceReconstructAttrs
+    ∧ Generated.GenState.sourceReduceAttrs ≠ [] := by decide +kernel
 
 /-! ### verdict -/
 
